@@ -11,12 +11,22 @@ import (
 	"verif/mc/ref/regex"
 )
 
+// skippedLine stands for a (global flag, non-ASCII subject) pair in the exec-chain
+// families: lastIndex of otto is a byte offset there (finding F-C10-015, covered
+// by the protocol family with its own alternative model), so the chain is not
+// run; non-ASCII subjects are exercised with the non-global flag sets only.
+const skippedLine = "-"
+
 // modelLines is the expected output of __e1 for a pattern the model accepts:
 // one line per subject, exec chained while global.
 func modelLines(p *regex.Pattern, flags string, subs [][]uint16) ([]string, error) {
 	re := regex.NewRegExp(p, flags)
 	out := make([]string, len(subs))
 	for i, s := range subs {
+		if re.Global && !isASCII(s) {
+			out[i] = skippedLine
+			continue
+		}
 		re.LastIndex = regex.Num(0)
 		var sb strings.Builder
 		for n := 0; ; n++ {
@@ -114,6 +124,10 @@ func goObserve(vm *otto.Otto, pattern, flags, form string, subVals []otto.Value,
 		lines = make([]string, len(subVals))
 		var sb strings.Builder
 		for i, sv := range subVals {
+			if global && !isASCII(subs[i]) {
+				lines[i] = skippedLine
+				continue
+			}
 			sb.Reset()
 			if err := ro.Set("lastIndex", 0); err != nil {
 				return otto.Value{}, err
@@ -301,7 +315,7 @@ type env struct {
 }
 
 func newEnv(r *engine.Run, family string, subLen, litLen int) *env {
-	e := &env{vm: otto.New(), subs: Subjects(subLen), subLen: subLen, family: family}
+	e := &env{vm: otto.New(), subs: SubjectsExt(subLen), subLen: subLen, family: family}
 	e.litN = len(Subjects(litLen))
 	for _, s := range e.subs {
 		v, err := otto.ToValue(regex.String16(s))
@@ -326,6 +340,11 @@ func (e *env) checkPattern(r *engine.Run, pattern string, flagList []string) {
 		if pat == nil {
 			pat = regex.ClassifyString(pattern)
 			lex = literalLex(pattern)
+		}
+		if pat.UsesSExt {
+			// \s \S are outside the portable subset (README documents the RE2 deviation)
+			r.Skip()
+			continue
 		}
 		var cache []string
 		for _, form := range []string{"ctor", "lit"} {
@@ -392,7 +411,7 @@ func fileMismatch(r *engine.Run, key, pattern, flags, form string, subLen int, p
 		Observed: obs,
 		Note:     fmt.Sprintf("%s; %d of %d subjects differ", cr.verdict, len(cr.diff), len(subs)),
 		Aux: map[string]string{
-			"pattern": pattern, "flags": flags, "form": form, "nsubs": fmt.Sprint(len(subs)),
+			"pattern": pattern, "flags": flags, "form": form, "nsubs": fmt.Sprintf("%d:%d", subLen, len(subs)),
 			"verdict": cr.verdict, "class": pat.Class.String(), "observed": cr.observed,
 			"rejected": fmt.Sprint(cr.rejected),
 		},
